@@ -32,7 +32,7 @@ VARIABLES
   chanOpen,       \* the dispatcher still holds the sending end of the job channel
   wst, wjob,      \* worker state "idle" | "busy" | "exited", and the job it holds (0: none)
   jst,            \* [Jobs -> "new" | "cancelled" | "queued" | "taken" | "started" | "loaded" | "running" | "post" | "finished"]
-  jres,           \* [Jobs -> "none" | "ok" | "fail"]  verdict of the job wrapper
+  jres,           \* [Jobs -> "none" | "ok" | "fail" | "cancelled"]  verdict of the job wrapper
   todo,           \* [Jobs -> SUBSET {"progress", "send"}] closing steps still to do
   running, completed, failed,   \* progress counters
   resq,           \* result channel: sequence of [job, kind]
@@ -138,11 +138,11 @@ JStart(j) == /\ jst[j] = "taken"
              /\ UNCHANGED <<outcome, stopOnError, cancel, di, dpc, queue, chanOpen, wst, wjob, jres, todo, completed,
                             failed, resq, senders, results, summary, opRuns, recorded, startedAtRecord, preCancel>>
 
-\* read the flag after having started; a cancelled batch skips the operation and the job fails
+\* read the flag after having started; a cancelled batch skips the operation and the job is cancelled
 JLoad(j) == /\ jst[j] = "started"
             /\ IF cancel
                THEN /\ jst' = [jst EXCEPT ![j] = "post"]
-                    /\ jres' = [jres EXCEPT ![j] = "fail"]
+                    /\ jres' = [jres EXCEPT ![j] = "cancelled"]
                     /\ todo' = [todo EXCEPT ![j] = {"progress", "send"}]
                ELSE /\ jst' = [jst EXCEPT ![j] = "loaded"]
                     /\ UNCHANGED <<jres, todo>>
@@ -166,8 +166,9 @@ JOpEnd(j) == /\ jst[j] = "running"
 JProgress(j) == /\ jst[j] = "post" /\ "progress" \in todo[j]
                 /\ todo' = [todo EXCEPT ![j] = @ \ {"progress"}]
                 /\ running' = running - 1
-                /\ IF jres[j] = "ok" THEN completed' = completed + 1 /\ UNCHANGED failed
-                                     ELSE failed' = failed + 1 /\ UNCHANGED completed
+                /\ CASE jres[j] = "ok" -> completed' = completed + 1 /\ UNCHANGED failed
+                     [] jres[j] = "fail" -> failed' = failed + 1 /\ UNCHANGED completed
+                     [] OTHER -> UNCHANGED <<completed, failed>>        \* cancelled: neither
                 /\ UNCHANGED <<outcome, stopOnError, cancel, di, dpc, queue, chanOpen, wst, wjob, jst, jres, resq,
                                senders, results, summary, opRuns, recorded, startedAtRecord, preCancel>>
 
